@@ -638,8 +638,13 @@ func c15RunGroupHistory(t *rapid.T) {
 		case 2:
 			ex = pickNode("excl")
 		case 3, 4:
-			// aim at the node an unexcluded selection returns
-			if d, _, _, err := m.g.SelectWithExclusionResult(m.types[slot], strict, nil); err == nil && d != nil {
+			// aim at the node an unexcluded selection returns (under random the pick
+			// is not reproducible, so a drawn alive node stands in for it)
+			if m.policy.Policy == consts.DialerSelectionPolicy_Random {
+				if al := m.aliveOf(slot, nil); len(al) > 0 {
+					ex = al[rapid.IntRange(0, len(al)-1).Draw(t, "exclAlive")]
+				}
+			} else if d, _, _, err := m.g.SelectWithExclusionResult(m.types[slot], strict, nil); err == nil && d != nil {
 				ex = m.byD[d]
 				m.class("excluded_is_pick")
 			}
@@ -670,7 +675,11 @@ func c15RunGroupHistory(t *rapid.T) {
 		if *nt != ntCopy {
 			m.fatalf("selection modified the caller's network type: %v -> %v", ntCopy, *nt)
 		}
-		m.logf("select %s strict=%v excl=%s -> %s err=%v", c15TypeNames[slot], strict, m.nameOf(exD), m.nameOf(d), err)
+		picked := m.nameOf(d)
+		if m.policy.Policy == consts.DialerSelectionPolicy_Random && d != nil {
+			picked = "<random pick>" // keep failure messages reproducible for the shrinker
+		}
+		m.logf("select %s strict=%v excl=%s -> %s err=%v", c15TypeNames[slot], strict, m.nameOf(exD), picked, err)
 		m.checkSelect(slot, strict, ex, foreignEx, d, lat, sel, api == 2, err)
 	}
 
@@ -732,8 +741,11 @@ func c15RunGroupHistory(t *rapid.T) {
 		},
 		"kill_pick": func(t *rapid.T) {
 			s := pickSlot("type")
+			if !c15gIsMin(m.policy.Policy) {
+				t.Skip("no reproducible pick")
+			}
 			d, _, _, err := m.g.SelectWithExclusionResult(m.types[s], true, nil)
-			if err != nil || d == nil || m.policy.Policy == consts.DialerSelectionPolicy_Fixed {
+			if err != nil || d == nil {
 				t.Skip("nothing picked")
 			}
 			n := m.byD[d]
